@@ -133,6 +133,10 @@ def check_props(pid):
     src = os.path.join(COQ, "Props", pid + ".v")
     text = open(src).read()
     theorems = re.findall(r"^\s*(?:Theorem|Lemma|Corollary|Example)\s+(\w+)", text, re.M)
+    # every property theorem must be followed by its own Print Assumptions (Examples are non-vacuity checks)
+    stated = re.findall(r"^\s*(?:Theorem|Lemma|Corollary)\s+(\w+)", text, re.M)
+    printed = re.findall(r"^\s*Print Assumptions\s+(\w+)\s*\.", text, re.M)
+    missing_print = [t for t in stated if t not in printed]
     ok, out = make_target("Props/%s.vo" % pid)
     axioms = []
     if ok:
@@ -146,6 +150,12 @@ def check_props(pid):
         for b in blocks:
             if b.startswith("Axioms:"):
                 axioms.append(" ".join(b.split()))
+        if missing_print:
+            ok = False
+            out += "\nFile \"./Props/%s.v\", line 0\nError: no Print Assumptions for %s\n\n" % (pid, ", ".join(missing_print))
+        if closed < len(stated):
+            ok = False
+            out += "\nFile \"./Props/%s.v\", line 0\nError: %d theorems but only %d 'Closed under the global context'\n\n" % (pid, len(stated), closed)
         info = dict(ok=ok, theorems=theorems, closed=closed, axioms=axioms, log=out)
     else:
         info = dict(ok=False, theorems=theorems, closed=0, axioms=[], log=out)
